@@ -7,7 +7,7 @@ use crate::ift::sim::{self, Fault, RunPlan, Sim};
 use crate::ift::world::{self, Def, Patch};
 use serde::{Deserialize, Serialize};
 
-fn gen_plan(rng: &mut Rng, with_faults: bool, glyph_only: bool) -> RunPlan {
+fn gen_plan(rng: &mut Rng, with_faults: bool, glyph_only: bool, allow_wide: bool) -> RunPlan {
     let mut w = world::gen_world(rng);
     if glyph_only {
         // keep only glyph-keyed entries: order / grouping independence is stated for those
@@ -28,7 +28,7 @@ fn gen_plan(rng: &mut Rng, with_faults: bool, glyph_only: bool) -> RunPlan {
     }
     // format-1 maps whose feature records push the entry count beyond 255 while the glyph map stays below it
     // (entry indices one byte wide in the glyph map, two bytes wide in the feature map)
-    if rng.chance(1, 10) && w.roots[0].map(|r| w.versions[r].table_format == 1 && !w.versions[r].entries.is_empty()).unwrap_or(false) {
+    if allow_wide && rng.chance(1, 10) && w.roots[0].map(|r| w.versions[r].table_format == 1 && !w.versions[r].entries.is_empty()).unwrap_or(false) {
         widen_format1(&mut w, rng);
         let tag = *rng.pick(&[*b"c2sc", *b"dlig", *b"kern", *b"liga", *b"smcp"]);
         let mut d = world::gen_def(rng, w.n_glyphs);
@@ -182,7 +182,7 @@ impl Engine for IftFaultFree {
     fn generate(&self, case_seed: u64) -> IftTrace {
         let mut rng = Rng::new(case_seed);
         let glyph_only = rng.chance(1, 3);
-        IftTrace { plan: gen_plan(&mut rng, false, glyph_only) }
+        IftTrace { plan: gen_plan(&mut rng, false, glyph_only, true) }
     }
     fn execute(&self, t: &mut IftTrace, stats: &mut Stats) -> Verdict {
         let out = match run_plan(&t.plan, stats, true, t.plan.hash_seed) {
@@ -323,7 +323,7 @@ impl Engine for IftFaulty {
     }
     fn generate(&self, case_seed: u64) -> IftTrace {
         let mut rng = Rng::new(case_seed);
-        IftTrace { plan: gen_plan(&mut rng, true, false) }
+        IftTrace { plan: gen_plan(&mut rng, true, false, true) }
     }
     fn execute(&self, t: &mut IftTrace, stats: &mut Stats) -> Verdict {
         let mut clean = t.plan.clone();
@@ -383,7 +383,8 @@ impl Engine for IftDecoderEnum {
     }
     fn generate(&self, case_seed: u64) -> EnumTrace {
         let mut rng = Rng::new(case_seed);
-        EnumTrace { plan: gen_plan(&mut rng, false, false), only: None }
+        // hundreds of decoder calls per round would make the exhaustive (round, call, kind) enumeration explode
+        EnumTrace { plan: gen_plan(&mut rng, false, false, false), only: None }
     }
     fn execute(&self, t: &mut EnumTrace, stats: &mut Stats) -> Verdict {
         let reference = match run_plan(&t.plan, &mut Stats::default(), false, 0) {
